@@ -85,8 +85,11 @@ fn hook(label: &'static str, addr: usize) {
     })
     .flatten();
     if let Some(b) = bad {
-        // do not let the real code touch freed memory: unwind out of it
-        panic!("{b}");
+        // do not let the real code touch freed memory: unwind out of it (never from inside an
+        // unwind: a second panic would abort the process)
+        if !std::thread::panicking() {
+            panic!("{b}");
+        }
     }
 }
 
